@@ -201,6 +201,29 @@ def finish(run, args):
                            solver=dict(verdict="n/a", reason="bounded native check of an assumed contract failed"))
             path = write_replay(pid, "bounded::" + h, payload)
             violations.append(("bounded::" + h, path, True))
+    # thorough tier: every native harness the property registers (replay / search maps) is also run once on the tree as it
+    # is - a labelled bounded stand-in over the scenarios the obligations were paired with; witnesses of listed known
+    # findings are left out (they are expected to fail and are replayed where their obligation is met)
+    if run.tier == "thorough":
+        done = set(b["harness"] for b in bounded_runs)
+        skip = set(k["witness"]["harness"] for k in load_known() if isinstance(k, dict) and k.get("witness"))
+        hs = []
+        for table in (getattr(mod, "REPLAY", {}), getattr(mod, "SEARCH", {})):
+            for h in table.values():
+                if h not in done and h not in skip and h not in hs:
+                    hs.append(h)
+        for h in hs:
+            res = native(h, dict(seed=run.seed, tier=run.tier), timeout=1800)
+            bounded_runs.append(dict(harness=h, what="native scenarios paired with this property's obligations (thorough tier)",
+                                     evaluations=res.get("evaluations"), ok=not res.get("violates"), error=res.get("error")))
+            if res.get("error"):
+                faults.append("bounded stand-in %s: %s" % (h, res["error"][-300:]))
+            elif res.get("violates") and not res.get("timed_out"):
+                payload = dict(property=pid, obligation="bounded::" + h, tree=repo_root(), harness=h,
+                               inputs=dict(seed=run.seed, tier=run.tier), native=res,
+                               solver=dict(verdict="n/a", reason="native scenario battery failed on this tree"))
+                path = write_replay(pid, "bounded::" + h, payload)
+                violations.append(("bounded::" + h, path, True))
     run.bounded_runs = bounded_runs
 
     # vacuity guards
